@@ -17,6 +17,7 @@ type ValProfile struct {
 	MaxChildElems int    // initial element count of generated containers
 	KeySpace      int    // size of the integer key space for maps
 	BigKeys       bool   // allow keys around / above the key inline limit
+	CompositeFlip bool   // SetType may turn a simple-typed map into a composite-typed one and back (compact form <-> plain form)
 }
 
 func DefaultValProfile() ValProfile {
@@ -582,6 +583,12 @@ func (w *World) Step(root *Node, ph Phase, cfg *HistCfg) error {
 			// keep compositeness stable so that the composite bucket of a case is fixed at creation
 			ti := w.newTI(false)
 			ti.Composite = n.TI.Composite
+			if w.prof.CompositeFlip && n.Parent != nil && r.Intn(3) == 0 {
+				ti = w.newTI(true)
+				if ti.Composite != n.TI.Composite {
+					w.stats.Extra["settype-composite-flips"]++
+				}
+			}
 			return w.OpMapSetType(n, ti)
 		}
 		if n.Parent != nil {
